@@ -43,7 +43,7 @@ def summarise(prog, limit=60000):
     pend = pending[0] if pending else None
     kvp = processor(prog)
     from . import roles as _roles
-    b = _roles.ib_paths(prog, kvp)       # private helpers (split-off branches, conversion functions) spliced in
+    b = _roles.ib_paths(prog, kvp, transitive=True)       # private helpers (split-off branches, conversion functions) spliced in; the reph routine stays one call
     cls = classes.class_fns(prog)
     cls_by_key = {v: k for k, v in cls.items()}
     out = []
@@ -56,6 +56,24 @@ def summarise(prog, limit=60000):
         e = strip_refs(e)
         return e.k == "field" and strip_refs(e.a[0]).k == "downcast" and contains_call(e, lambda n: n.endswith("Iterator>::next")) is not None \
             and any(is_value(x) for x in e.walk() if x.k == "arg") and contains_call(e, lambda n: n.endswith("::last") or n.endswith("::pop")) is None
+
+    def is_rest(e):
+        """value[len_utf8(first character)..] — what follows the first character of the key value."""
+        # chars.as_str() after the first character was taken with chars.next()
+        e0 = strip_refs(e)
+        while e0.k == "call" and len(e0.a[1]) == 1 and (e0.a[0].endswith("::deref") or e0.a[0].endswith("::as_ref") or e0.a[0].endswith("::borrow")):
+            e0 = strip_refs(e0.a[1][0])
+        if e0.k == "call" and "Chars" in e0.a[0] and e0.a[0].endswith("::as_str") and e0.a[1]:
+            src = strip_refs(e0.a[1][0])
+            return src.k == "call" and src.a[0].endswith("str>::chars") and is_value(src.a[1][0])
+        e = peel_conv(e)
+        if not (e.k == "call" and e.a[0].endswith("::index") and "str" in e.a[0] and len(e.a[1]) == 2 and is_value(e.a[1][0])):
+            return False
+        r = strip_refs(e.a[1][1])
+        if not (r.k == "agg" and str(r.a[0]).endswith("RangeFrom::RangeFrom") and r.a[1]):
+            return False
+        lo = strip_refs(r.a[1][0])
+        return lo.k == "call" and lo.a[0].endswith("len_utf8") and is_character(lo.a[1][0])
 
     def is_rmc(e):
         e = strip_refs(e)
@@ -223,7 +241,7 @@ def summarise(prog, limit=60000):
                             eff = ("push", repr(v)[:80])
                     elif op == "push_str":
                         v = peel_conv(args[1])
-                        eff = ("push_str", "<value>" if is_value(v) else repr(v)[:80])
+                        eff = ("push_str", "<value>" if is_value(v) else ("<rest>" if is_rest(args[1]) else repr(v)[:80]))
                     elif op == "pop":
                         eff = ("pop",)
                     else:
